@@ -6,7 +6,7 @@ from checks.harness import meta
 PROPERTY = "C11"
 LEVEL = "other"
 LEAN_MODULES = ["Exetera.Props.C11"]
-BASES = ["c03", "c04", "c08", "c09", "c14", "c16", "c17", "c06", "c05", "c01", "c07"]
+BASES = ["c03", "c04", "c08", "c09", "c14", "c16", "c17", "c06", "c05", "c01", "c07", "c11x"]   # c11x: mode-differential-only cases (floats with NaN, dtype bounds)
 MODES = {"quick": ["jit", "nojit"], "thorough": ["jit", "nojit"], "search": ["jit", "nojit"]}
 MODE_DIFF_IS_VIOLATION = True
 EXHAUSTIVE = {"quick": False, "thorough": False}
